@@ -7,6 +7,7 @@ import (
 	"time"
 
 	"github.com/kercylan98/vivid"
+	"github.com/kercylan98/vivid/internal/verifhook"
 )
 
 var (
@@ -80,12 +81,14 @@ func (f *Future[T]) PipeTo(forwarders vivid.ActorRefs) error {
 	if len(forwarders) == 0 {
 		return nil
 	}
+	verifhook.At("fut.pipe.check", f, nil)
 	f.mu.Lock()
 	if f.closed.Load() {
 		f.mu.Unlock()
 		// closed 标记先于结果写入：此时完成方可能尚未写入 message/err，需等待完成信号后再读取，
 		// 否则转发者会收到一个既无消息也无错误的半成品结果
 		<-f.done
+		verifhook.At("fut.pipe.tell", f, nil)
 		f.tellForwarders(forwarders, f.message, f.err)
 		return nil
 	}
@@ -109,9 +112,12 @@ func (f *Future[T]) tellForwarders(refs vivid.ActorRefs, msg T, err error) {
 }
 
 func (f *Future[T]) close(v any) {
+	verifhook.At("fut.close.cas", f, v)
 	if !f.closed.CompareAndSwap(false, true) {
+		verifhook.At("fut.close.end", f, v)
 		return
 	}
+	verifhook.At("fut.close.set", f, v)
 	switch val := v.(type) {
 	case error:
 		f.err = val
@@ -121,19 +127,23 @@ func (f *Future[T]) close(v any) {
 	default:
 		f.err = fmt.Errorf("%w, expected %T, got %T", vivid.ErrorFutureMessageTypeMismatch, f.message, val)
 	}
+	verifhook.At("fut.close.done", f, v)
 	close(f.done)
 	if f.timer != nil {
 		f.timer.Stop()
 	}
+	verifhook.At("fut.close.closer", f, v)
 	if f.closer != nil {
 		f.closer()
 	}
 
+	verifhook.At("fut.close.fwd", f, v)
 	f.mu.Lock()
 	toSend := f.forwarders
 	f.forwarders = nil
 	f.mu.Unlock()
 	f.tellForwarders(toSend, f.message, f.err)
+	verifhook.At("fut.close.end", f, v)
 }
 
 // Closed 返回 Future 是否已经完成（成功、失败或超时）。
@@ -142,11 +152,13 @@ func (f *Future[T]) Closed() bool {
 }
 
 func (f *Future[T]) Result() (T, error) {
+	verifhook.At("fut.result.wait", f, nil)
 	<-f.done
 	return f.message, f.err
 }
 
 func (f *Future[T]) Wait() error {
+	verifhook.At("fut.result.wait", f, nil)
 	<-f.done
 	return f.err
 }
